@@ -167,7 +167,11 @@ vector<T, Allocator>::~vector() {
 
 template<typename T, typename Allocator>
 T &vector<T, Allocator>::push(const T &element) {
-	_ensure_capacity(_size + 1);
+	// The argument may refer to one of our own elements (v.push(v[0])):
+	// growing moves the elements and frees the buffer it points into.
+	if(_size == _capacity)
+		return push(T(element));
+
 	T *pointer = new (&_elements[_size]) T(element);
 	_size++;
 	return *pointer;
